@@ -820,8 +820,13 @@ class SwitchServlet(Servlet):
                 continue
 
             # Determine which member servlet should process `x`:
-            idx = self.switch(x)
-            qins[idx].put((uid, x))
+            try:
+                q = qins[self.switch(x)]
+            except Exception as e:
+                # A failure of the user-defined `switch` (or a bad index) fails this request only.
+                qout.put((uid, RemoteException(e)))
+                continue
+            q.put((uid, x))
 
     @property
     def input_queue_type(self):
